@@ -3,7 +3,7 @@
 tools/seedtest.sh and records the outcome in seeded/RESULTS.json and in each seed's meta.json (what was run, what caught it)."""
 import json, os, re, subprocess, sys
 V = os.path.dirname(os.path.dirname(os.path.abspath(__file__)))
-EXTRA = {'C06_b': ['C13'], 'C09_a': ['C08'], 'C01_b': ['C17'], 'C02_a': ['C03'], 'C03_a': ['C02'], 'C09_b': ['C03'], 'C05_b': ['C10']}
+EXTRA = {'C13_e': ['C07'], 'C04_e': ['C02', 'C03'], 'C06_b': ['C13'], 'C09_a': ['C08'], 'C01_b': ['C17'], 'C02_a': ['C03'], 'C03_a': ['C02'], 'C09_b': ['C03'], 'C05_b': ['C10']}
 only = sys.argv[1:]
 res = {}
 for d in sorted(os.listdir(os.path.join(V, 'seeded'))):
